@@ -21,12 +21,14 @@ PLANS = {
     "C01": plan(shards(20, 240)),
     "C02": plan(shards(20, 240)),
     "C03": plan(shards(20, 240)),
+    "C04": plan(shards(25, 300, mode="light", n=12), shards(25, 300, mode="actor", n=4)),
     "C05": plan(shards(20, 240)),
     "C08": plan(shards(20, 240)),
     "C09": plan(shards(20, 240)),
     "C10": plan(shards(40, 400, mode="script", n=12), shards(25, 300, mode="faults", n=3), shards(15, 120, mode="shutdown-race", n=1)),
     "C12": plan(shards(20, 240)),
     "C13": plan(shards(20, 240)),
+    "C06": plan(shards(25, 300, mode="images", n=14), shards(20, 200, mode="kill", n=2)),
     "C07": plan(shards(20, 240)),
     "C14": plan(shards(20, 240)),
     "C15": plan(shards(20, 240)),
